@@ -87,6 +87,10 @@ DERIVS.update({
     'slice[3:0:-1]': (lambda a: a[3:0:-1], lambda l: l[3:0:-1]),
     'slice[-3:-1]': (lambda a: a[-3:-1], lambda l: l[-3:-1]),
     'iter': (lambda a: type(a)(list(a), dtype=a.dtype), lambda l: l),
+    'slice[3::-2]': (lambda a: a[3::-2], lambda l: l[3::-2]),
+    'slice[4:0:-3]': (lambda a: a[4:0:-3], lambda l: l[4:0:-3]),
+    'big:slice[::-2]': (lambda a: a[::-2], lambda l: l[::-2]),
+    'big:slice[15:2:-4]': (lambda a: a[15:2:-4], lambda l: l[15:2:-4]),
     'slice[3:1]': (lambda a: a[3:1], lambda l: l[3:1]),
     'slice[-1:2]': (lambda a: a[-1:2], lambda l: l[-1:2]),
     'slice[1:4][-1:1]': (lambda a: a[1:4][-1:1], lambda l: l[1:4][-1:1]),
